@@ -784,8 +784,11 @@ class H2Connection:
                 stream_id, priority_weight, priority_depends_on
             )
 
-        # Check we can open the stream.
-        if stream_id not in self.streams:
+        # Check we can open the stream. A stream we have promised starts to
+        # count when we send the response headers on it (RFC 7540 Section
+        # 5.1.2: "reserved" streams do not count, "half-closed" ones do).
+        if (stream_id not in self.streams or
+                self.streams[stream_id].reserved_local):
             max_open_streams = self.remote_settings.max_concurrent_streams
             if (self.open_outbound_streams + 1) > max_open_streams:
                 raise TooManyStreamsError(
@@ -1626,6 +1629,11 @@ class H2Connection:
             frame.stream_id > self.highest_inbound_stream_id and
             not self._stream_id_is_outbound(frame.stream_id)
         )
+        if not opens_stream and frame.stream_id in self.streams:
+            # The response headers on a stream the remote peer promised take
+            # that stream out of the "reserved" state: from then on it counts.
+            opens_stream = self.streams[frame.stream_id].reserved_remote
+
         if opens_stream:
             max_open_streams = self.local_settings.max_concurrent_streams
             if (self.open_inbound_streams + 1) > max_open_streams:
